@@ -467,6 +467,17 @@ func (w *g01World) raChoice(n string) []string {
 	return out
 }
 
+// annotated counts the bound pods whose reservation-allocated annotation names uid
+func (w *g01World) annotated(uid string) int {
+	n := 0
+	for _, p := range w.apiPods() {
+		if a, err := apiext.GetReservationAllocated(p); err == nil && a != nil && string(a.UID) == uid && p.Spec.NodeName != "" {
+			n++
+		}
+	}
+	return n
+}
+
 func g01In(xs []string, x string) bool {
 	for _, y := range xs {
 		if x == y {
@@ -823,8 +834,13 @@ func (w *g01World) next(rng *rand.Rand) g01Step {
 			if w.rgen[r] > 0 {
 				add(1, g01Step{Op: "sync", R: r, G: w.rgen[r]})
 				if w.gate {
-					add(3, g01Step{Op: "sync", R: r, G: 1 + rng.Intn(w.rgen[r])})
+					add(2, g01Step{Op: "sync", R: r, G: 1 + rng.Intn(w.rgen[r])})
 					add(1, g01Step{Op: "sync", R: r, G: w.rgen[r], Fail: 1 + rng.Intn(2), Ek: eks[rng.Intn(2)]})
+					// pods still carrying the deleted incarnation's annotation: the clean-up path, with and without a failing patch
+					if left := w.annotated(g01Uid(r, w.rgen[r])); left > 0 {
+						add(4*left, g01Step{Op: "sync", R: r, G: w.rgen[r], Fail: 1 + rng.Intn(left), Ek: eks[rng.Intn(2)]})
+						add(3, g01Step{Op: "sync", R: r, G: w.rgen[r]})
+					}
 				}
 			}
 			if w.rgen[r] < g01MaxGen {
@@ -849,6 +865,9 @@ func (w *g01World) next(rng *rand.Rand) g01Step {
 			add(2, g01Step{Op: "deleteR", R: r})
 		} else {
 			add(1, g01Step{Op: "deleteR", R: r})
+		}
+		if w.gate && w.annotated(string(cur.UID)) >= 2 {
+			add(5, g01Step{Op: "deleteR", R: r})
 		}
 		if cur.Status.Phase == schedulingv1alpha1.ReservationPending && cur.Status.NodeName == "" {
 			add(2, g01Step{Op: "unsched", R: r})
